@@ -139,8 +139,24 @@ pub fn judge_with(c: &Case, st: &mut Stats, deep: bool) -> Verdict {
         }
         _ => {
             st.class("not-incomplete");
-            // the reference calls this input incomplete but the parser does not: nothing for C17
-            // to judge (C05 / C02 own that), but the case did not exercise C17
+            // The statement quantifies over truncated v2 headers (valid control bytes, any declared length, any number
+            // of bytes present): for those the parser owes an incomplete result carrying the exact counts. A truncated
+            // header that draws anything else - a terminal error, a success - has no counts at all.
+            let truncated_valid_header = match want {
+                V2Ref::Incomplete(_) | V2Ref::Partial(..) => {
+                    x.len() <= 12 || ((x[12] == 0x20 || x[12] == 0x21) && (x.len() < 14 || valid_afp(x[13])))
+                }
+                _ => false,
+            };
+            if truncated_valid_header {
+                return Err(Fail::new(
+                    "truncated-header-without-counts",
+                    shape2(x),
+                    ENTRY,
+                    format!("{:?} for a truncated header of {} bytes", want, x.len()),
+                    imp::show(&got),
+                ));
+            }
             if matches!(want, V2Ref::Incomplete(_) | V2Ref::Partial(..)) {
                 st.discard();
             }
